@@ -83,7 +83,7 @@ Proof.
   intros st [J k b] Hlv; simpl in *.
   assert (forall q, p_level q = S J -> exists_ st q = false) as Hno.
   { intros [L kq bq] E; simpl in E; subst. unfold exists_, st_has, p_skey; simpl.
-    destruct (st_get st (S J, kq)) eqn:G; auto. exfalso.
+    destruct (st_get st (S J, kq)) as [n|] eqn:G; auto. exfalso.
     assert (In ((S J, kq), n) st) as Hin.
     { clear -G. induction st as [|[sk n'] st IH]; simpl in G; [discriminate|].
       destruct (skey_cmp (S J, kq) sk) eqn:E; try discriminate.
